@@ -500,6 +500,62 @@ fn run_long(c: &LongCase) -> Outcome {
 	o
 }
 
+// ---------------------------------------------------------------- every handle dropped with controls queued behind an armed grace timer
+
+#[derive(Clone, Debug, Serialize, Deserialize)]
+pub struct DropCase {
+	/// 0 stop_with_signal, 1 try_restart_with_signal, 2 no graceful control at all (plain queue)
+	pub kind: u8,
+	pub grace_ms: u16,
+	pub closures: u8,
+	/// virtual ms between the last control and the drop of the last handle
+	pub drop_after_ms: u16,
+}
+
+fn run_drop(c: &DropCase) -> Outcome {
+	let mut o = Outcome::pass();
+	o.nontrivial = c.kind % 3 != 2;
+	let n = usize::from(c.closures.max(1));
+	let rt = tokio::runtime::Builder::new_current_thread().enable_all().start_paused(true).build().unwrap();
+	let (seen, ended): (Vec<usize>, bool) = rt.block_on(async {
+		let world = crate::sim::World::new(SimSpec { children: vec![ChildSpec { self_exit: None, code: 0, react: React::Ignore }], ..Default::default() });
+		let (job, task) = start_job(Arc::new(Command {
+			program: Program::Exec { prog: "/bin/true".into(), args: vec![] },
+			options: SpawnOptions::default(),
+		}));
+		world.set_hook(&job, None).await;
+		job.start().await;
+		let seen: Arc<Mutex<Vec<usize>>> = Arc::new(Mutex::new(Vec::new()));
+		let g = std::time::Duration::from_millis(u64::from(c.grace_ms));
+		match c.kind % 3 {
+			0 => drop(job.stop_with_signal(crate::jobdrive::sig(0).0, g)),
+			1 => drop(job.try_restart_with_signal(crate::jobdrive::sig(0).0, g)),
+			_ => {}
+		}
+		for i in 0..n {
+			let seen = seen.clone();
+			drop(job.run(move |_| seen.lock().unwrap().push(i)));
+		}
+		if c.drop_after_ms > 0 {
+			tokio::time::sleep(std::time::Duration::from_millis(u64::from(c.drop_after_ms))).await;
+		}
+		drop(job);
+		let ended = tokio::time::timeout(std::time::Duration::from_millis(u64::from(c.grace_ms) + 5_000), task).await.is_ok();
+		let s = seen.lock().unwrap().clone();
+		(s, ended)
+	});
+	let want: Vec<usize> = (0..n).collect();
+	if seen != want {
+		o.fail(
+			"controls-sent-before-the-last-handle-was-dropped-did-not-all-run",
+			format!("closures that ran: {seen:?}, sent (all before the last handle was dropped): 0..{n}\ncase {c:?}"),
+		);
+	} else if !ended {
+		o.fail("task-not-ended:after-last-handle-dropped", format!("the job task is still running 5 s after the grace period\ncase {c:?}"));
+	}
+	o
+}
+
 fn long_strategy() -> BoxedStrategy<LongCase> {
 	// positions around powers of two get extra weight (batching / budget boundaries of the runtime)
 	let k = prop_oneof![
@@ -534,6 +590,19 @@ pub fn check(e: &Engine) {
 		&run_long,
 	);
 	e.require_label("long-burst", "k>=120", 0.3);
+	e.explore(
+		"drop-with-armed-timer",
+		LegOpts::det(
+			e.tier.pick(300, 6_000),
+			"a running (simulated, signal-ignoring) process, a graceful stop or graceful try-restart with a grace period of 50-400 ms (or none), 1-8 run closures queued behind it, then the last Job handle is dropped 0-500 ms later (before, at or after the deadline): every closure sent before the drop runs, in order, exactly once, and the task ends; non-trivial = a grace timer is armed",
+		),
+		&|| {
+			(0u8..3, prop_oneof![Just(50u16), Just(200), Just(400)], 1u8..9, prop_oneof![Just(0u16), Just(1), Just(100), Just(200), Just(500)])
+				.prop_map(|(kind, grace_ms, closures, drop_after_ms)| DropCase { kind, grace_ms, closures, drop_after_ms })
+				.boxed()
+		},
+		&run_drop,
+	);
 	e.explore(
 		"concurrent-senders",
 		LegOpts {
